@@ -166,7 +166,8 @@ func TestC06CorpusReplay(t *testing.T) {
 		return nil
 	})
 	sort.Strings(files)
-	n := 0
+	shard, nshards := ev.Shard()
+	n, idx := 0, 0
 	for _, f := range files {
 		ins, err := c06ReadCorpusFile(f)
 		if err != nil {
@@ -174,6 +175,10 @@ func TestC06CorpusReplay(t *testing.T) {
 			continue
 		}
 		for _, in := range ins {
+			idx++
+			if idx%nshards != shard {
+				continue // every input runs on exactly one of the shard processes
+			}
 			c := &ev.Case{}
 			c.Label("corpus")
 			viol := c06RunCorpusInput(in, c)
